@@ -93,12 +93,27 @@ fn daemon_tid() -> Option<i32> {
 }
 
 /// run `f` in a helper thread; Err if it does not finish within BOUND
+/// Is some thread other than the harness's main thread runnable right now?  A thread that is runnable but has not
+/// finished is either starved (overloaded machine, descheduled virtual CPU: observed as a thread in state R with no
+/// CPU time for more than 10 s) or spinning; a thread that waits for something that will never come is asleep.
+fn others_runnable() -> bool {
+    thread_states().iter().any(|(st, name)| *st == 'R' && name != "vverif")
+}
+
+/// The time limit of every "returns in bounded time" judgement: BOUND, extended up to 6 x BOUND for as long as some
+/// thread is still runnable (so that starvation is not taken for blocking; a spinning thread is reported after 60 s).
+fn out_of_time(t0: Instant) -> bool {
+    let el = t0.elapsed();
+    let r = el > BOUND && !(el < BOUND * 6 && others_runnable());
+    r
+}
+
 fn bounded<T: Send + 'static>(what: &str, f: impl FnOnce() -> T + Send + 'static) -> Result<T, String> {
     let h = std::thread::Builder::new().name("c16_helper".into()).spawn(f).map_err(|e| e.to_string())?;
     let t0 = Instant::now();
     while !h.is_finished() {
-        if t0.elapsed() > BOUND {
-            return Err(format!("{what} did not return within {}s; threads: {:?}", BOUND.as_secs(), thread_states()));
+        if out_of_time(t0) {
+            return Err(format!("{what} did not return within {}s; threads: {:?}", t0.elapsed().as_secs(), thread_states()));
         }
         std::thread::sleep(Duration::from_micros(200));
     }
@@ -163,7 +178,7 @@ fn run_shut_generic<V: VringT<GM> + Clone + Send + Sync + 'static>(ctx: &mut Ctx
                 cl.send(fe::SET_CONFIG, true, &spec::b_config(0x100, 4, 0, &[1, 2, 3, 4]), &[]).map_err(|e| e.to_string())?;
                 let t0 = Instant::now();
                 while !fx.be.in_set_config.load(Ordering::SeqCst) {
-                    if t0.elapsed() > BOUND {
+                    if out_of_time(t0) {
                         return Err("request did not reach the back end's set_config".into());
                     }
                     std::thread::yield_now();
@@ -191,7 +206,7 @@ fn run_shut_generic<V: VringT<GM> + Clone + Send + Sync + 'static>(ctx: &mut Ctx
                         }
                         Err(e) => return Err(format!("flood: {e}")),
                     }
-                    if t0.elapsed() > BOUND {
+                    if out_of_time(t0) {
                         return Err("could not fill the reply path".into());
                     }
                 }
@@ -279,7 +294,7 @@ fn run_shut_generic<V: VringT<GM> + Clone + Send + Sync + 'static>(ctx: &mut Ctx
                     let h = start_wait(&mut fx)?;
                     let t0 = Instant::now();
                     while !h.is_finished() {
-                        if t0.elapsed() > BOUND {
+                        if out_of_time(t0) {
                             return Err(format!("wait() following the completed shutdown request of a second caller did not return within {}s while the first caller is stalled between its two steps", BOUND.as_secs()));
                         }
                         std::thread::sleep(Duration::from_micros(200));
@@ -310,7 +325,7 @@ fn run_shut_generic<V: VringT<GM> + Clone + Send + Sync + 'static>(ctx: &mut Ctx
             let t0 = Instant::now();
             for h in hs {
                 while !h.is_finished() {
-                    if t0.elapsed() > BOUND {
+                    if out_of_time(t0) {
                         return Err("concurrent shutdown() call did not return".into());
                     }
                     std::thread::yield_now();
@@ -345,7 +360,7 @@ fn run_shut_generic<V: VringT<GM> + Clone + Send + Sync + 'static>(ctx: &mut Ctx
             Some(h) => {
                 let t0 = Instant::now();
                 while !h.is_finished() {
-                    if t0.elapsed() > BOUND {
+                    if out_of_time(t0) {
                         return Err(format!("wait() overlapping a shutdown request did not return within {}s; threads: {:?}", BOUND.as_secs(), thread_states()));
                     }
                     std::thread::sleep(Duration::from_micros(200));
@@ -436,7 +451,7 @@ fn run_cut_generic<V: VringT<GM> + Clone + Send + Sync + 'static>(ctx: &mut Ctx,
             drop(peer);
             let t0 = Instant::now();
             while !h.is_finished() {
-                if t0.elapsed() > BOUND {
+                if out_of_time(t0) {
                     return Err(format!("serve() did not return within {}s after the peer closed", BOUND.as_secs()));
                 }
                 std::thread::sleep(Duration::from_micros(200));
@@ -457,7 +472,7 @@ fn run_cut_generic<V: VringT<GM> + Clone + Send + Sync + 'static>(ctx: &mut Ctx,
                 if workers == 0 {
                     break;
                 }
-                if t0.elapsed() > BOUND {
+                if out_of_time(t0) {
                     return Err(format!("after serve() returned, {workers} worker threads are still running: exit events were not raised"));
                 }
                 std::thread::sleep(Duration::from_micros(500));
@@ -508,7 +523,7 @@ fn run_cut_generic<V: VringT<GM> + Clone + Send + Sync + 'static>(ctx: &mut Ctx,
     td?;
     // dropping the daemon terminates the workers
     let t0 = Instant::now();
-    while thread_states().len() > base_threads && t0.elapsed() < BOUND {
+    while thread_states().len() > base_threads && !out_of_time(t0) {
         std::thread::sleep(Duration::from_micros(500));
     }
     if thread_states().len() > base_threads {
@@ -596,10 +611,27 @@ fn run_drop_generic<V: VringT<GM> + Clone + Send + Sync + 'static>(ctx: &mut Ctx
     let d = fx.daemon.take().unwrap();
     bounded(if c.failing_source { "drop(daemon) with an event source whose handler keeps failing" } else { "drop(daemon)" }, move || drop(d))?;
     let t0 = Instant::now();
-    while thread_states().len() > base_threads && t0.elapsed() < BOUND {
+    let mut left;
+    loop {
+        left = thread_states();
+        if left.len() <= base_threads {
+            // /proc/self/task is not a snapshot: a listing taken while threads come and go can miss one.  Believe
+            // "all gone" only if a second listing agrees.
+            std::thread::sleep(Duration::from_millis(1));
+            left = thread_states();
+            if left.len() <= base_threads {
+                break;
+            }
+            ctx.class("thread_listing_transiently_short");
+            if std::env::var("VERIF_DEBUG_C16").is_ok() {
+                eprintln!("C16DEBUG transient short listing, now {left:?}");
+            }
+        }
+        if out_of_time(t0) {
+            break;
+        }
         std::thread::sleep(Duration::from_micros(500));
     }
-    let left = thread_states();
     ctx.nontrivial(c);
     ctx.class("drop_while_connected");
     if left.len() > base_threads {
@@ -676,7 +708,7 @@ pub fn run(ctx: &mut Ctx) {
             }
         }
     }
-    let reps = ctx.tier.pick(5usize, 60usize);
+    let reps = ctx.tier.pick(5usize, 400usize);
     let space: Vec<ShutCase> = (0..reps).flat_map(|r| space.iter().map(move |c| ShutCase { rwlock: (c.rwlock as usize + r) % 2 == 0, workers: ((c.workers as usize + r) % 3) as u8 + 1, ..*c })).collect();
     ctx.extra.insert("shutdown_scenarios".into(), json!(space.len()));
     ctx.enumerate("shutdown_positions", space, |ctx, c| run_shut(ctx, c));
